@@ -291,17 +291,17 @@ class HttpEnv:
         return b[off:]
 
     def quiescent(self) -> bool:
-        """Client and all server connections closed (a server that sent EOF and is only kept writable counts: it is
-        closed without an event when the client handler finishes), nothing outstanding."""
+        """The client connection and all server connections are closed and nothing is outstanding.  "Closed" is the
+        connection's state (closed by the peer and by us, or closed by command) -- whether the ConnectionClosed
+        notification for a close by command has already been fed to the layer does not matter: the property speaks
+        of closed connections, not of consumed notifications.  A server that sent EOF and is only kept writable
+        counts as closed (it is closed without an event when the client handler finishes)."""
         if self.drv.pending:
             return False
-        if not self.fully_closed(self.client):
+        if self.client.state is not ConnectionState.CLOSED:
             return False
         for s in self.servers:
-            if s.state is ConnectionState.CLOSED:
-                if not self.fully_closed(s):
-                    return False
-            elif s.state & ConnectionState.CAN_READ:
+            if s.state & ConnectionState.CAN_READ:
                 return False
         return True
 
